@@ -13,6 +13,7 @@ import (
 
 	"github.com/virus-evolution/gofasta/pkg/alphabet"
 	"github.com/virus-evolution/gofasta/pkg/encoding"
+	"github.com/virus-evolution/gofasta/pkg/vhook"
 )
 
 // A struct for one Fasta record
@@ -647,6 +648,7 @@ func WriteAlignment(ch chan FastaRecord, w io.Writer, cdone chan bool, cerr chan
 	var err error
 
 	for FR := range ch {
+		vhook.Recv("fastaio.WriteAlignment", FR.Idx)
 
 		outputMap[FR.Idx] = FR
 
@@ -683,6 +685,7 @@ func WriteWrapAlignment(ch chan FastaRecord, w io.Writer, wrap int, cdone chan b
 	)
 
 	for FR := range ch {
+		vhook.Recv("fastaio.WriteAlignment", FR.Idx)
 
 		outputMap[FR.Idx] = FR
 
